@@ -38,8 +38,9 @@ func cmdSelftest(args []string) int {
 			sd := check.RunSeed(seed, id, i)
 			res := s.Exec(sd, s.GenProgram(sd, *tier))
 			if res.ND {
-				// outside the seams (Go map iteration order): only the verdict is compared
-				fmt.Printf("%s %d %d ND %d\n", id, i, sd, len(res.Viol))
+				// outside the seams (Go map iteration order): only the verdict is
+				// compared, i.e. the violations the property's check would report
+				fmt.Printf("%s %d %d ND %d\n", id, i, sd, len(s.Relevant(res.Viol)))
 				continue
 			}
 			fmt.Printf("%s %d %d %x %d %d\n", id, i, sd, res.LogHash, len(res.Viol), res.Images)
